@@ -122,12 +122,21 @@ func Lifetime(v *vrt.Ctx) {
 	}
 	v.Assume(w.run(append(loadLine(0), app.Code().Halt().Bytes()...)) == nil)
 	v.Assert(w.calls == 1, "C05/visible-symbol-is-not-loaded-again")
-	// ascend back to the load level: still there
-	for i := 0; i < down; i++ {
-		v.Assume(w.run(app.Code().Move("_").Bytes()) == nil)
+	// ascend back to the load level: still there. From below the entry node
+	// the way back may also be the rewind '^' (it ascends to the entry node,
+	// not above it)
+	if depth == 1 && v.Choice("back-by-rewind", 2) == 1 {
+		v.Assume(w.run(app.Code().Move("^").Bytes()) == nil)
+		v.Cover("C05/rewind-to-the-load-level")
+	} else {
+		for i := 0; i < down; i++ {
+			v.Assume(w.run(app.Code().Move("_").Bytes()) == nil)
+		}
 	}
 	got, err := w.ca.Get("f")
 	v.Assert(v.And(err == nil, got == first), "C05/still-there-at-the-load-level")
+	v.Assume(w.run(append(loadLine(0), app.Code().Halt().Bytes()...)) == nil)
+	v.Assert(w.calls == 1, "C05/visible-symbol-is-not-loaded-again")
 	if depth == 1 {
 		v.Cover("C05/lifetime-entry-node")
 		return // cannot ascend above the entry node
